@@ -50,6 +50,26 @@ class GFiveStage(Integrator):
         self.do_post_stage(dt, 5)
 
 
+class GThreeSets(Integrator):
+    """three equation sets"""
+    def one_timestep(self, t, dt):
+        self.compute_accelerations(0)
+        self.stage1()
+        self.do_post_stage(0.5*dt, 1)
+        self.compute_accelerations(1)
+        self.stage2()
+        self.do_post_stage(0.75*dt, 2)
+        self.compute_accelerations(2)
+        self.stage3()
+        self.update_domain()
+        self.do_post_stage(dt, 3)
+
+
+def decoy_one_timestep(self, t, dt):
+    self.stage1()
+    self.do_post_stage(dt, 1)
+
+
 # arrays of the side (compiled / literal) that is currently stepping, by name: lets a py hook of one array look at another
 REG = {}
 
